@@ -57,8 +57,9 @@ def be64 (n : Nat) : Bytes := be32 (n / 2^32) ++ be32 n
 def fromBe : Bytes → Nat := List.foldl (fun acc b => acc * 256 + b.toNat) 0
 
 /-- big-endian, exactly `n` bytes (high part truncated) -/
-def natToBe (n : Nat) (x : Nat) : Bytes :=
-  (List.range n).map (fun j => UInt8.ofNat (x / 256 ^ (n - 1 - j)))
+def natToBe : Nat → Nat → Bytes
+  | 0, _ => []
+  | n + 1, x => UInt8.ofNat (x / 256 ^ n) :: natToBe n x
 
 /-- minimal big-endian bytes (`BigUint::to_bytes_be`: zero ↦ [0]) -/
 def natToBeMin (x : Nat) : Bytes :=
@@ -126,6 +127,29 @@ theorem splitLast_none {n : Nat} {l : Bytes} : splitLast n l = none ↔ l.length
   unfold splitLast; split <;> simp_all
 theorem splitFirst_none {n : Nat} {l : Bytes} : splitFirst n l = none ↔ l.length < n := by
   unfold splitFirst; split <;> simp_all
+
+theorem natToBe_length (n x : Nat) : (natToBe n x).length = n := by
+  induction n with
+  | zero => rfl
+  | succ n ih => simp [natToBe, ih]
+
+theorem foldl_natToBe (n x acc : Nat) :
+    List.foldl (fun acc (b : UInt8) => acc * 256 + b.toNat) acc (natToBe n x) = acc * 256 ^ n + x % 256 ^ n := by
+  induction n generalizing acc with
+  | zero => simp [natToBe, Nat.mod_one]
+  | succ n ih =>
+    simp only [natToBe, List.foldl_cons, ih, UInt8.toNat_ofNat']
+    have hm : x % 256 ^ (n + 1) = x % 256 ^ n + 256 ^ n * (x / 256 ^ n % 256) := by
+      rw [Nat.pow_succ, Nat.mod_mul]
+    have hp : acc * 256 ^ (n + 1) = acc * 256 * 256 ^ n := by
+      rw [Nat.pow_succ, Nat.mul_assoc, Nat.mul_comm (256 ^ n) 256]
+    rw [hm, hp, Nat.add_mul, Nat.mul_comm (x / 256 ^ n % 256) (256 ^ n)]
+    omega
+
+/-- fixed-width big-endian serialisation round-trips for values that fit -/
+theorem fromBe_natToBe (n x : Nat) (h : x < 256 ^ n) : fromBe (natToBe n x) = x := by
+  unfold fromBe
+  rw [foldl_natToBe, Nat.mod_eq_of_lt h]; simp
 
 theorem le64_length (n : Nat) : (le64 n).length = 8 := rfl
 
